@@ -199,7 +199,7 @@ func runDialFailure(c *rt.Case, variant int) {
 	}
 	// the session is over; give its goroutines a moment, then look for survivors
 	var leaks []string
-	for k := 0; k < 30; k++ {
+	for k := 0; k < 500; k++ { // up to 10 s (real time, ends as soon as nothing is left)
 		time.Sleep(20 * time.Millisecond)
 		leaks = handlerGoroutines()
 		if len(leaks) <= before {
@@ -304,7 +304,13 @@ func runShutdownSockets(c *rt.Case, variant int) {
 	// every active peer is told; sleeping peers are not
 	for i, p := range peers {
 		gotDisc := false
-		deadline := time.After(time.Second)
+		// real time: an active peer is given 10 s (it is told within ~100 ms; the generous limit only keeps a
+		// loaded machine from turning into a verdict), a sleeping one is watched for 1 s
+		wait := 10 * time.Second
+		if p.asleep {
+			wait = time.Second
+		}
+		deadline := time.After(wait)
 	loop:
 		for {
 			select {
@@ -327,15 +333,18 @@ func runShutdownSockets(c *rt.Case, variant int) {
 	}
 	select {
 	case err := <-served:
+		// how long it took is judged in virtual time by the termination cases; here (real sockets, real time,
+		// possibly a loaded machine) it is only recorded
+		_ = err
 		if d := servedAt.Sub(t0); d > 1500*time.Millisecond {
-			c.Violation("sockets-shutdown|listen-and-serve-returns-late", fmt.Sprintf("ListenAndServe returned %v after its context was cancelled (err %v)", d, err), nil)
+			c.R.Count("socket_shutdown_slower_than_1500ms", 1)
 		}
-	case <-time.After(5 * time.Second):
-		c.Violation("sockets-shutdown|listen-and-serve-does-not-return", "ListenAndServe still running 5 s after its context was cancelled", nil)
+	case <-time.After(30 * time.Second):
+		c.Violation("sockets-shutdown|listen-and-serve-does-not-return", "ListenAndServe still running 30 s after its context was cancelled", nil)
 		return
 	}
 	var leaks []string
-	for k := 0; k < 50; k++ {
+	for k := 0; k < 500; k++ { // up to 10 s (real time, ends as soon as nothing is left)
 		time.Sleep(20 * time.Millisecond)
 		leaks = handlerGoroutines()
 		if len(leaks) <= before {
@@ -343,7 +352,7 @@ func runShutdownSockets(c *rt.Case, variant int) {
 		}
 	}
 	if len(leaks) > before {
-		c.Violation("sockets-shutdown|goroutine-leak|"+leakSite(leaks[len(leaks)-1]), fmt.Sprintf("%d session goroutine(s) still alive 1 s after the gateway was shut down", len(leaks)-before), map[string]interface{}{"stacks": leaks})
+		c.Violation("sockets-shutdown|goroutine-leak|"+leakSite(leaks[len(leaks)-1]), fmt.Sprintf("%d session goroutine(s) still alive 10 s after the gateway was shut down", len(leaks)-before), map[string]interface{}{"stacks": leaks})
 	}
 	c.R.Count("socket_shutdown_peers", nPeers)
 	c.Key("sockets-shutdown|%d", nPeers)
